@@ -3,6 +3,9 @@ SPECIFICATION Spec
 CONSTANTS
   Families = {"repo"}
   GrowDepth = 0
-  Stride = 23
+  Stride = 61
+  MutStride = 1
+  DocEols = {"lf"}
+  DocBefores = {"none"}
 INVARIANTS WellFormed Emit
 CHECK_DEADLOCK FALSE
